@@ -57,7 +57,8 @@ def run(tier, seed):
             st.disagree({"construct": True}, "constructible", repr(e), "constructor raised")
             findings.append(Finding("C05", f"constructing a distribution raised {e!r}", {"kind": "construct"}, {"error": repr(e)}))
             continue
-        x = distgen.point(rnd, node)
+        far = rnd.random() < 0.12
+        x = distgen.point(rnd, node, far=far)
         with np.errstate(all="ignore"), quiet():
             try:
                 m = float(node.obj.misfit(x.copy()))
@@ -69,6 +70,8 @@ def run(tier, seed):
         for k in node.kinds():
             st.count(f"class={k}")
         st.count(f"depth={node.depth()}")
+        if far:
+            st.count("far evaluation point")
         if m is None:
             st.disagree(stim, "misfit/gradient evaluate", g, "public method raised")
             findings.append(Finding("C05", f"misfit()/gradient() raised {g}", {"kind": "raise", "classes": sorted(node.kinds())}, {"stimulus": stim}))
